@@ -325,7 +325,7 @@ Next ==
   \/ \E k \in NaSet \cup {0}, n \in 0..2, a \in {0, 3} : NewAtoms("list", k, a, FillC(k, n), FillQ(k, n))
   \/ \E m \in PoolSet, n \in 0..2, a \in {0, 3} : NewMol(m, n, a, FillC(m.na, IF n = 0 THEN 1 ELSE n), FillQ(m.na, IF n = 0 THEN 1 ELSE n))
   \/ \E ms \in Lists(3), n \in {0, 2} : NewList(ms, n)
-  \/ \E n \in {0, 1} : NewCopy(n)
+  \/ \E n \in {0, 1} : (n = 0 \/ ~ens.S.made) /\ NewCopy(n)       \* an explicit n_conformers with the first copy only
   \/ \E m \in PoolSet : AppendC(m)
   \/ \E ms \in Lists(2) : ExtendList(ms)
   \/ ExtendEns(SelfVal, "self")
